@@ -75,5 +75,5 @@ func IDs() []string {
 }
 
 func AllPatterns() []string {
-	return cat(CorePatterns, PluginPkgs, []string{PromPkg}, RatePkgs)
+	return cat(CorePatterns, PluginPkgs, IOPluginPkgs, []string{PromPkg}, RatePkgs)
 }
